@@ -32,10 +32,14 @@ type Plan struct {
 
 // Config is the swarm configuration of a run (fixed before tasks start).
 type Config struct {
-	Hook      bool `json:"hook,omitempty"`     // error-redaction hook installed
-	NoPoison  bool `json:"nopoison,omitempty"` // do not scribble over idle printers' spare capacity
-	Sink      bool `json:"sink,omitempty"`     // a sink task re-reads handed-over snapshots
-	SinkSteps int  `json:"sinksteps,omitempty"`
+	Hook     bool `json:"hook,omitempty"`     // error-redaction hook installed
+	NoPoison bool `json:"nopoison,omitempty"` // do not scribble over idle printers' spare capacity
+	Sink     bool `json:"sink,omitempty"`     // a sink task re-reads handed-over snapshots
+	// LateReg > 0: after the reference execution and right before the tasks
+	// start, the main goroutine registers a struct type that is new to the
+	// process as safe (RegisterSafeType has returned before any task exists).
+	LateReg   int `json:"latereg,omitempty"`
+	SinkSteps int `json:"sinksteps,omitempty"`
 }
 
 type Task struct {
